@@ -29,8 +29,8 @@ def consts_for(g, pairing, wset, maxinst, maxrest, nrestore=0):
 def interleaved(ctx, g, wset, maxinst, maxrest):
     for pairing in ("AB", "SS"):
         consts, wset_ = consts_for(g, pairing, wset, maxinst, maxrest)
-        res = ctx.mc("MC_Agree", cfg(view="ViewNoLast", constants=consts, constraints=["OneExchange"], invariants=INVS,
-                                     properties=["ScalarStable"]),
+        res = ctx.mc("MC_Agree", cfg(view="ViewNoLast", constants=consts, constraints=["OneExchange"], invariants=INVS + ["LifecycleInv"],
+                                     properties=["ScalarStable", "RefinesLifecycle"]),
                      label="MC_Agree/interleaved[%s,%s,|w|=%d,inst<=%d,restores<=%d]" % (g, pairing, len(wset_), maxinst, maxrest),
                      coverage=(g == "i11" and len(wset_) <= 1 and pairing == "AB"))
         if g == "i11" and len(wset_) <= 1 and pairing == "AB":
@@ -110,7 +110,7 @@ def run(ctx):
                        "ScalarChoices": "<- MC_ScalarChoices", "Attacker": "<- MC_Attacker"})
         ctx.mc("MC_Big", cfg(constants=consts, invariants=["TypeOK", "Agreement", "NoAgreementButFindings", "AtMostOneMsg", "AtMostOneKey",
                                                            "EntropyOnlyInStart", "NeverKeyForWrongSide", "KeyOnlyFromCanonical",
-                                                           "RestoreEquivalent"], properties=["ScalarStable"]),
+                                                           "RestoreEquivalent", "LifecycleInv"], properties=["ScalarStable", "RefinesLifecycle"]),
                label="MC_Big/simulate[%s, 6 instances, 3 restores, attacker]" % g,
                simulate="num=%d" % (150 if thorough else 12), extra=["-depth", "30", "-seed", str(ctx.seed + 1)], timeout=3000)
     uni = Universe()
